@@ -2,7 +2,7 @@
   FcModel.Spec.C19 — what property C19 demands, stated on the model of FcModel/Effects.lean.
 -/
 import FcModel.Effects
-namespace Fc.Spec
+namespace Fc.C19.Spec
 open Fc
 
 /-- "never modify the arrays of the data sets they are given": no identity that existed before the
@@ -29,4 +29,4 @@ def specPred (kind : PredKind) (rel abs : Tol) : List PredEvent → List Verdict
 /-- repeating a comparison gives the same suite every time -/
 def allEqualTo {S} [DecidableEq S] (s : S) (l : List S) : Bool := l.all (· == s)
 
-end Fc.Spec
+end Fc.C19.Spec
